@@ -1,9 +1,10 @@
 #!/bin/bash
 # usage: mutrun.sh <file-rel> <sed-expr> <prop> [filter]   (dev helper; scratch copy under /tmp)
+HERE=$(cd "$(dirname "$0")" && pwd)
 D=$(mktemp -d /tmp/clem_mut.XXXX)
 rsync -a --exclude .git --exclude logs --exclude '.logs' --exclude '.data' --exclude tests --exclude docs --exclude frontend /repo/clematis /repo/configs $D/
 sed -i "$2" $D/$1
 diff <(cat /repo/$1) $D/$1 | head -6
-cd /verif && VERIF_REPO=$D ./check $3 --filter "$4" --no-evidence 2>&1 | grep -v "^\[" | tail -${TAILN:-8}
+cd "$HERE" && VERIF_REPO=$D ./check $3 --filter "$4" --no-evidence 2>&1 | grep -v "^\[" | tail -${TAILN:-8}
 echo "exit=$?"
 rm -rf $D
